@@ -1937,12 +1937,16 @@ class Dataset(
 
         self.prepare_data(data, tl=tl)
 
+        # The required data fields are the ones of the configuration and the
+        # ones of this dataset, as in the ``load_data`` method.
+        datafields = {**self._cfg['datafields'], **self._datafields}
+
         # Drop non-required data fields.
         if data.exp is not None:
             with TaskTimer(tl, 'Cleaning exp data.'):
                 keep_fields_exp = (
                     DataFields.get_joint_names(
-                        datafields=self._cfg['datafields'],
+                        datafields=datafields,
                         stages=(
                             DFS.ANALYSIS_EXP
                         )
@@ -1955,7 +1959,7 @@ class Dataset(
             with TaskTimer(tl, 'Cleaning MC data.'):
                 keep_fields_mc = (
                     DataFields.get_joint_names(
-                        datafields=self._cfg['datafields'],
+                        datafields=datafields,
                         stages=(
                             DFS.ANALYSIS_EXP |
                             DFS.ANALYSIS_MC
@@ -2904,6 +2908,10 @@ def assert_data_format(
     """
     cfg = dataset.cfg
 
+    # The required data fields are the ones of the configuration and the ones
+    # of the dataset.
+    datafields = {**cfg['datafields'], **dataset.datafields}
+
     def _get_missing_keys(keys, required_keys):
         missing_keys = []
         for reqkey in required_keys:
@@ -2915,7 +2923,7 @@ def assert_data_format(
         missing_exp_keys = _get_missing_keys(
             data.exp.field_name_list,
             DataFields.get_joint_names(
-                datafields=cfg['datafields'],
+                datafields=datafields,
                 stages=(
                     DFS.ANALYSIS_EXP
                 )
@@ -2931,7 +2939,7 @@ def assert_data_format(
         missing_mc_keys = _get_missing_keys(
             data.mc.field_name_list,
             DataFields.get_joint_names(
-                datafields=cfg['datafields'],
+                datafields=datafields,
                 stages=(
                     DFS.ANALYSIS_EXP |
                     DFS.ANALYSIS_MC
